@@ -23,6 +23,7 @@ func init() {
 			{"ACP-READ-GATE", ruleACPReadGate},
 			{"ACP-PLUMB", ruleACPPlumb},
 			{"ACP-SOURCES", ruleACPSources},
+			{"COMMITS-ACP-GATE", ruleCommitsACPGate},
 			{"EVENT-PUBLIC", ruleEventPublic},
 		},
 		Meta: eng.PropMeta{
@@ -681,4 +682,117 @@ func ruleMultiAdvance(c *eng.Ctx) {
 	})
 	c.Check(cleared, rule, "multiFetcher.NextDoc:drops-unconsumed-selection", multi.Decl.Pos(), "a document skipped by the wrapper is not yielded again",
 		"multiFetcher.NextDoc keeps the docID last returned by a child until GetFields, and never drops it when NextDoc is called again: the permissioned fetcher's skip of a denied document (NextDoc without GetFields) gets the same docID forever — a showDeleted query by a requester lacking read permission on any document never returns")
+}
+
+// ruleCommitsACPGate: the commits / latestCommits / _version leaf yields a commit only after the
+// requester's read permission on the commit's document was checked, and never on the branch where
+// the check answered false: in dagScanNode.Next every `return true, …` is preceded on every path by
+// a call whose cone reaches internal/db/permission.Check*, and with that call's boolean result
+// assumed false no `return true` is reachable from it.
+func ruleCommitsACPGate(c *eng.Ctx) {
+	const rule = "COMMITS-ACP-GATE"
+	fi := c.Anchor(rule, "internal/planner.(*dagScanNode).Next")
+	if fi == nil {
+		return
+	}
+	c.P.BuildCG()
+	info := fi.Pkg.TypesInfo
+	flow := eng.NewFlow(info, fi.Decl.Body)
+	reachesCheck := func(call *ast.CallExpr) bool {
+		callee := eng.Callee(info, call)
+		if callee == nil {
+			return false
+		}
+		if callee.Pkg() != nil && eng.ShortPkg(callee.Pkg().Path()) == "internal/db/permission" && strings.HasPrefix(callee.Name(), "Check") {
+			return true
+		}
+		g := c.P.FuncOfObj(callee)
+		if g == nil || g == fi {
+			return false
+		}
+		fn := c.P.SSAFunc(g)
+		if fn == nil {
+			return false
+		}
+		for f := range c.P.Cone(fn) {
+			if f.Pkg != nil && eng.ShortPkg(f.Pkg.Pkg.Path()) == "internal/db/permission" && strings.HasPrefix(f.Name(), "Check") {
+				return true
+			}
+		}
+		return false
+	}
+	// the gate: v, err := <call reaching a permission check>
+	var gate *ast.AssignStmt
+	var gateVar types.Object
+	ast.Inspect(fi.Decl.Body, func(m ast.Node) bool {
+		as, ok := m.(*ast.AssignStmt)
+		if !ok || len(as.Rhs) != 1 || len(as.Lhs) < 1 {
+			return true
+		}
+		call, ok := ast.Unparen(as.Rhs[0]).(*ast.CallExpr)
+		if !ok || !reachesCheck(call) {
+			return true
+		}
+		if o := eng.ObjOf(info, as.Lhs[0]); o != nil {
+			if b, ok := o.Type().Underlying().(*types.Basic); ok && b.Kind() == types.Bool {
+				gate, gateVar = as, o
+			}
+		}
+		return true
+	})
+	if gate == nil {
+		c.Bad(rule, "dagScanNode.Next:permission-check", fi.Decl.Pos(), "dagScanNode.Next performs no document permission check: commits queries return the deltas (field values) of documents the requester may not read")
+		return
+	}
+	c.OK(rule, "dagScanNode.Next:permission-check", gate.Pos(), "a call reaching internal/db/permission.Check* binds "+gateVar.Name())
+	isGate := func(nd ast.Node) bool { return nd == ast.Node(gate) }
+	n := 0
+	ast.Inspect(fi.Decl.Body, func(m ast.Node) bool {
+		if _, ok := m.(*ast.FuncLit); ok {
+			return false
+		}
+		r, ok := m.(*ast.ReturnStmt)
+		if !ok || len(r.Results) != 2 {
+			return true
+		}
+		if tv, ok := info.Types[r.Results[0]]; !ok || tv.Value == nil || tv.Value.ExactString() != "true" {
+			return true
+		}
+		n++
+		pt, ok := flow.PointOf(r)
+		if !ok {
+			return true
+		}
+		un := flow.ReachesWithout(pt, isGate, nil)
+		c.Check(!un, rule, fmt.Sprintf("dagScanNode.Next:yield#%d:after-permission-check", n), r.Pos(), "a commit is yielded only after the permission check", "a commit is yielded on a path that never checked the requester's read permission on its document")
+		// with the check's result false, the yield is unreachable from the gate
+		gp, _ := flow.PointOf(gate)
+		leak := flow.Forward(gp, false, eng.Walk{
+			Visit: func(p eng.Point, nd ast.Node) eng.Action {
+				if p == pt {
+					return eng.Hit
+				}
+				// a recursive n.Next() starts a new decision
+				return eng.Continue
+			},
+			Edge: func(cond ast.Expr, taken bool) bool {
+				t := eng.EvalBool(info, cond, func(e ast.Expr) eng.Tri {
+					if eng.ObjOf(info, e) == gateVar {
+						return eng.False
+					}
+					return eng.Unknown
+				})
+				switch t {
+				case eng.True:
+					return taken
+				case eng.False:
+					return !taken
+				}
+				return true
+			},
+		})
+		c.Check(!leak, rule, fmt.Sprintf("dagScanNode.Next:yield#%d:not-on-denied-branch", n), r.Pos(), "a denied commit is never yielded", "the yield is reachable on the branch where the permission check answered false")
+		return true
+	})
+	c.Floor(rule, n, 1)
 }
